@@ -373,6 +373,18 @@ func tailFamily() []string {
 	// hash literals which write a key more than once: the operand count is the number of pairs written
 	out := []string{`return {"a": 1, "a": 1};`, `return {"a": 1, "a": 2, "b": 3};`, `x = [10, {"k": 5, "k": 5}]; return x;`, `return {1: 1, 1: 2, "1": 3, 1.0: 4};`,
 		`function f() { return {"a": 1, "a": 1}; } return f();`, `foreach k, v in {"a": 1, "a": 1, "a": 1} { t(k); } return 1;`, `return {N: 1, N: 2};`, `return len({"a": 1, "a": 1}) + 1;`}
+	// a return which ends a block that holds jumps of its own, with more code (and another return) behind the block:
+	// every jump over the block still lands inside the body
+	out = append(out,
+		`if ( C1 ) { foreach x in [1, 2] { if ( x == 2 ) { t(x); } } return 1; } return 2;`,
+		`if ( C1 ) { if ( C2 ) { t(1); } return 1; } return 2;`,
+		`if ( C1 ) { while ( C2 ) { C2 = false; } return 1; } else { return 3; }`,
+		`function f() { if ( C1 ) { if ( C2 ) { t(1); } return 1; } return 2; } return f();`,
+		`function g(l) { if ( len(l) > 0 ) { found = false; foreach v in l { if ( v == 2 ) { found = true; } } return found; } return false; } return g([1, 2]);`,
+		`switch ( N ) { case 1 { if ( C1 ) { t(1); } return 1; } default { return 2; } }`,
+		`foreach x in [1] { if ( C1 ) { if ( C2 ) { t(2); } return x; } } return 0;`,
+		`if ( C1 ) { return C2 ? 1 : 2; } if ( C2 ) { t(3); } return 4;`,
+		`while ( C1 ) { if ( C2 ) { return 1; } C1 = false; } if ( C2 ) { return 2; } return 3;`)
 	for _, cst := range constructs {
 		out = append(out, cst, "x = 1; t(0); "+cst, "function f(N) { "+cst+" } f(1); "+cst, "function g() { t(5); "+cst+" } return g();")
 	}
@@ -434,7 +446,7 @@ func sizeFamily(tier string) []string {
 }
 
 func checkC18(c *Check) {
-	c.rule = "every accepted script of the corpora MC_Flow, MC_Opt, MC_Scope, MC_History (every 8th distinct script, the small corpora whole; thorough: of the thorough-tier corpora, plus MC_Alias, MC_Cont, MC_Truth and every 400th script of MC_Expr) and a size family (integer literals and constant pools around the 8/16-bit boundaries, calls/arrays/hashes/literals whose operand low byte takes the value of every opcode as the last instruction of a function, bodies of 65.5k bytes in front of forward and backward jumps) and a tail family (23 constructs as the LAST statement of the main body and of function bodies, where the last jump target is the end of the body; 8 hash literals writing a key more than once) is prepared optimised and unoptimised; the programs as the VM will run them (verif accessors) are explored by TLC on ALL control-flow paths (MC_Verify); every report is re-established by an independent decoder/abstract interpreter in Go before it counts; non-trivial = a prepared program with at least one jump or call; distinct = distinct (script, mode)"
+	c.rule = "every accepted script of the corpora MC_Flow, MC_Opt, MC_Scope, MC_History (every 8th distinct script, the small corpora whole; thorough: of the thorough-tier corpora, plus MC_Alias, MC_Cont, MC_Truth and every 400th script of MC_Expr) and a size family (integer literals and constant pools around the 8/16-bit boundaries, calls/arrays/hashes/literals whose operand low byte takes the value of every opcode as the last instruction of a function, bodies of 65.5k bytes in front of forward and backward jumps) and a tail family (23 constructs as the LAST statement of the main body and of function bodies, where the last jump target is the end of the body; 8 hash literals writing a key more than once; 9 programs in which a return ends a block holding jumps of its own, with more code behind the block) is prepared optimised and unoptimised; the programs as the VM will run them (verif accessors) are explored by TLC on ALL control-flow paths (MC_Verify); every report is re-established by an independent decoder/abstract interpreter in Go before it counts; non-trivial = a prepared program with at least one jump or call; distinct = distinct (script, mode)"
 	c.assumptions = []string{"calls are taken to push one value (the statement's proviso)", "abstract stack heights saturate at 12", "the verif accessors return the byte slices the VM executes"}
 	// the model compiler (EFCompiler): well-formed on every enumerated program (TLC), and byte-for-byte
 	// what the real compiler emits (drift is reported, it is not a verdict)
